@@ -360,21 +360,8 @@ def r04_5(ctx: Ctx) -> None:
         form = f"if {txt(test.test)}: return 0"
     ctx.ob("R04.5", LOC, tests[0] if tests else func, "get_distance_between_locations", "zero under overlap", ok,
            "the distance is 0 exactly under the overlap test, which precedes all arithmetic", form=form)
-    # the ring distance never exceeds the linear one
-    from ..flow import inline_reaching as _inline
-    mins = [c for c in calls(func) if call_name(c) == "min"
-            and any("get_distance_between_locations" in txt(_inline(cfg, c, a, max_depth=0)) for a in c.args)]
-    if not mins:
-        # per-pair form: under the wrap point the gap becomes min(<the line gap computed just before>, <the way round>)
-        for c in calls(func):
-            stmt = next((x for x in [getattr(c, "_parent", None)] if isinstance(x, ast.Assign)), None)
-            if call_name(c) == "min" and stmt is not None and isinstance(stmt.targets[0], ast.Name) \
-                    and any(txt(arg) == stmt.targets[0].id for arg in c.args) and "wrap_point" in fact_texts(cfg, c):
-                mins.append(c)
-    ok = bool(mins) and all("wrap_point" in fact_texts(cfg, m) for m in mins)
-    ctx.ob("R04.5", LOC, mins[0] if mins else func, "get_distance_between_locations", "ring <= line", ok,
-           "with a wrap point the result is the minimum of the way round and the linear distance",
-           form=txt(mins[0]) if mins else "")
+    # (that the ring distance never exceeds the linear one is part of R04.7's decision of the per-pair gap against
+    #  min(line gap, way over the origin); the former syntactic obligation `ring <= line` asked for a literal min() call)
     rfunc = ctx.fn(REC, "Record.get_distance_between_locations")
     rcfg = CFG(rfunc)
     wraps = [c for c in calls(rfunc) if call_name(c) == "get_distance_between_locations"]
